@@ -2,6 +2,7 @@ mod absmodel;
 mod bvhcheck;
 mod clicheck;
 mod convert;
+mod faults;
 mod geom;
 mod locks;
 mod sched;
@@ -34,6 +35,7 @@ fn worker(kind: &str) {
             "bvh" => bvhcheck::worker_handle(&req),
             "cli" => clicheck::worker_handle(&req),
             "convert" => convert::worker_handle(&req),
+            "faults" => faults::worker_handle(&req),
             _ => serde_json::json!({"error": "unknown worker kind"}),
         };
         util::answer(&ans);
@@ -54,6 +56,7 @@ fn main() {
         "sched" => sched::main_sched(&args),
         "cli" => clicheck::main_cli(&args),
         "convert" => convert::main_convert(&args),
+        "faults" => faults::main_faults(&args),
         "locks" => locks::main_locks(&args),
         "locks-one" => locks::main_one(&args),
         other => {
